@@ -12,6 +12,9 @@ pid = sys.argv[3] if len(sys.argv) > 3 else meta["property"]
 assert subprocess.run(["git", "-C", "/repo", "status", "--porcelain"], capture_output=True, text=True).stdout.strip() == "", "/repo not clean"
 subprocess.run(["git", "-C", "/repo", "apply", os.path.join(d, "patch.diff")], check=True)
 t0 = time.time()
+# the evidence file must always come from a run on the UNCHANGED tree: keep it aside and put it back
+evp = os.path.join(ROOT, "evidence", pid + ".json")
+ev_saved = open(evp).read() if os.path.exists(evp) else None
 try:
     p = subprocess.run(["./check", "run", pid, "--tier", tier], cwd=ROOT, capture_output=True, text=True, timeout=3600)
     out = p.stdout + p.stderr
@@ -28,6 +31,8 @@ try:
            "violation_line": viol[0] if viol else None, "replay": rp, "wall_s": round(time.time() - t0, 1),
            "known_finding_lines": [l for l in out.splitlines() if l.startswith("KNOWN-FINDING")]}
 finally:
+    if ev_saved is not None:
+        open(evp, "w").write(ev_saved)
     subprocess.run(["git", "-C", "/repo", "checkout", "--", "."], check=True)
     subprocess.run(["git", "-C", "/repo", "clean", "-fdq", "--", "seed_demo_test.go"], check=False)
 json.dump(res, open(os.path.join(d, "result-%s-%s.json" % (pid, tier)), "w"), indent=1)
